@@ -355,10 +355,6 @@ def _case(c: dict, directory: pathlib.Path) -> dict:
     ptol = c["pRel"]
     r.close("widths-of-converged-solution", wp2.widths / wp.widths, 1.0, 5 * ptol, new=wp2.widths, returned=wp.widths)
     r.close("offsets-of-converged-solution", wp2.offsets, wp.offsets, 5 * ptol * (1 + np.abs(wp.offsets)), new=wp2.offsets)
-    # off-equilibrium solution of the re-evaluation agrees with the returned one within the iteration tolerance
-    # (Delta00 is what enters the pressure; the iteration stops when the pressure moves by < pRel)
-    d00, d00b = Dres["Delta00"], np.array(br0.Deltas.Delta00.coefficients, dtype=float)
-    r.close("Delta00-of-converged-solution", np.linalg.norm(d00b - d00) / np.linalg.norm(d00), 0.0, 5 * ptol)
     Tprof = np.asarray(res.temperatureProfile, dtype=float)
     r.close("temperature-profile-ends-at-Tminus/Tplus", [Tprof[0], Tprof[-1]], [Tm, Tp], 1e-12 * abs(Tp))
     fprof = np.asarray(res.fieldProfiles, dtype=float)
@@ -373,19 +369,59 @@ def _case(c: dict, directory: pathlib.Path) -> dict:
     r.true("velocity-profile-negative-and-subluminal", np.all(vprof < 0) and np.all(vprof > -1), vmin=float(vprof.min()), vmax=float(vprof.max()))
 
     # ---------------------------------------------------------------- sign change of the TOTAL pressure within the velocity tolerance
-    # brentq: |v - root| <= errTol; solver's pressure noise tuned to ~1 % of errTol -> probe at 1.25 errTol (as in e2e).
-    # Each probe starts, like solveWall's own pressureWrapper, from wall parameters AND an off-equilibrium solution
-    # (here: the returned ones), and iterates Boltzmann + EOM to convergence with a fresh solver.
-    lo, hi = max(v - 1.25 * errTol, vmin), min(v + 1.25 * errTol, vmax)
-    (plo, *_), a1, a2 = P(lo, wp, _seed(res, fresh.grid))
-    (phi, *_), b1, b2 = P(hi, wp, _seed(res, fresh.grid))
-    r.true("probe-evaluations-converged", a1 and a2 and b1 and b2, flags=[a1, a2, b1, b2])
+    # The discretised pressure depends on the grid mapping, which every wallPressure call derives from the wall parameters
+    # it is STARTED from (measured: M=20, cold start vs. start from the returned parameters move P by ~1 errTol*dP/dv at
+    # errTol=3e-4). The function whose zero solveWall brackets is therefore P_s(v') = wallPressure(v', seeds(v')) with
+    # seeds(v') = the wall parameters and BoltzmannResults interpolated linearly between the evaluations at the two ends of
+    # the window (solveWall.pressureWrapper). It is rebuilt here with a FRESH solver: end-point evaluations from the initial
+    # guess (same order as solveWall), the solver's own absolute pressure tolerance, interpolated seeds.
+    # brentq: sign change of P_s within xtol = errTol of v; iteration noise of P_s is relative (pRel*|P|, cannot flip a
+    # sign) plus the absolute floor tuned to 1 % of errTol*dP/dv -> probed at 1.25 errTol (as in e2e).
+    probe = m.setupWallSolver(settings())
+    pe = probe.eom
+    guess = WallParams(widths=probe.initialWallThickness * np.ones(am.nf), offsets=np.zeros(am.nf))
+
+    def cold(vw):
+        return pe.wallPressure(vw, WallParams(widths=guess.widths.copy(), offsets=guess.offsets.copy()))
+
+    pe.pressAbsErrTol = 1e-8
+    outMax = cold(vmax)
+    vlow = vmin
+    outMin = cold(vlow)
+    while outMin[0] > 0 and 2 * vlow < vmax:  # solveWall doubles the lower end until the pressure is negative there
+        vlow *= 2
+        outMin = cold(vlow)
+        r.tag("window-lower-end-doubled")
+    r.true("window-ends-bracket-a-zero(fresh-solver)", outMin[0] < 0 < outMax[0], pmin=float(outMin[0]), pmax=float(outMax[0]), vlow=vlow, vmax=vmax)
+    atol = 0.01 * errTol * (1 - c["pRel"]) * min(abs(outMin[0]), abs(outMax[0])) / 4
+
+    def Ps(vw):
+        f = (vw - vlow) / (vmax - vlow)
+        pe.pressAbsErrTol = atol
+        out = pe.wallPressure(vw, outMin[1] + (outMax[1] - outMin[1]) * f, boltzmannResultsInput=outMin[2] + (outMax[2] - outMin[2]) * f)
+        return out, bool(pe.successWallPressure), bool(pe.successTemperatureProfile)
+
+    lo, hi = max(v - 1.25 * errTol, vlow), min(v + 1.25 * errTol, vmax)
+    (plo, *_), a1, a2 = Ps(lo)
+    (phi, *_), b1, b2 = Ps(hi)
+    (pv, wpv, brv, bgv, _), c1, c2 = Ps(v)
+    r.true("probe-evaluations-converged", a1 and a2 and b1 and b2 and c1 and c2, flags=[a1, a2, b1, b2, c1, c2])
     if hi >= vmax - 1e-12 and phi <= 0 and abs(v - vmax) < 2 * errTol:
         r.tag("root-at-window-top")
-    r.true("pressure-negative-below", plo < 0 or lo <= vmin + 1e-12, plo=float(plo), lo=lo, v=v)
-    r.true("pressure-positive-above", phi > 0 or hi >= vmax - 1e-12, phi=float(phi), hi=hi, v=v)
-    # how decisive the sign change is: |P(v)| relative to the smaller probe pressure (reported, not judged)
-    r.detail.update(plo=float(plo), phi=float(phi), p_at_v=float(p0), sign_margin=float(abs(p0) / max(min(abs(plo), abs(phi)), 1e-300)))
+    r.true("pressure-negative-below", plo < 0 or lo <= vlow + 1e-12, plo=float(plo), lo=lo, v=v, p_at_v=float(pv))
+    r.true("pressure-positive-above", phi > 0 or hi >= vmax - 1e-12, phi=float(phi), hi=hi, v=v, p_at_v=float(pv))
+    # |P_s(v)| <= the larger probe pressure (v lies between the probes and P_s is increasing): how central the root is
+    r.detail.update(plo=float(plo), phi=float(phi), p_at_v=float(pv), p_at_v_from_returned_params=float(p0),
+                    root_offset_in_errTol=float(-pv / ((phi - plo) / (hi - lo)) / errTol) if phi != plo else None)
+    # The evaluation at v rebuilt with the fresh solver has the seeds of solveWall's final evaluation. The property only asks
+    # for "the converged solution at v" (any start of the iteration qualifies), so the wall parameters are judged within
+    # the pressure-iteration tolerance, as for the re-evaluation above; exact reproduction is reported as a tag.
+    # (Boltzmann fields / profiles are not compared pointwise between evaluations: the grid is re-mapped by each of them.)
+    r.close("widths-of-evaluation-at-v(solver-seeds)", wpv.widths / wp.widths, 1.0, 5 * ptol, new=wpv.widths, returned=wp.widths)
+    r.close("offsets-of-evaluation-at-v(solver-seeds)", wpv.offsets, wp.offsets, 5 * ptol * (1 + np.abs(wp.offsets)), new=wpv.offsets)
+    exact = (np.array_equal(wpv.widths, wp.widths) and np.array_equal(wpv.offsets, wp.offsets) and np.array_equal(np.asarray(brv.deltaF), dF)
+             and np.array_equal(np.asarray(bgv.temperatureProfile), Tprof))
+    r.tag("final-evaluation-reproduced-" + ("bitwise" if exact else "within-iteration-tolerance"))
 
     # ---------------------------------------------------------------- repeated call on the same manager: bitwise identical
     ref = offeq_tuple(res)
